@@ -69,7 +69,7 @@ func (r *recorder) fail(format string, a ...interface{}) {
 // ---- peer script
 type reply struct {
 	Delay int    `json:"d"` // ms after the request arrived (after the barrier opened, if there is one)
-	Kind  string `json:"k"` // own | foreign | zero | garb | badframe | close
+	Kind  string `json:"k"` // own | foreign | zero | garb | badframe | close | notify
 }
 
 type script struct {
@@ -224,7 +224,12 @@ func (p *peer) send(c net.Conn, reqID int32, caller int, kind string) {
 		return
 	}
 	id, tag := reqID, caller
+	desc := ""
 	switch kind {
+	case "notify": // the close notification a server sends before it shuts down: a push carrying the reconnect message
+		id = 0
+		tag = 0
+		desc = "_reconnect_"
 	case "zero":
 		id = 0
 		tag = 0
@@ -234,7 +239,7 @@ func (p *peer) send(c net.Conn, reqID int32, caller int, kind string) {
 		tag = 0
 	}
 	mid, _ := mapID(id)
-	rsp := requestf.ResponsePacket{IVersion: 1, IRequestId: id, SBuffer: encodeTag(tag, q), Status: map[string]string{}}
+	rsp := requestf.ResponsePacket{IVersion: 1, IRequestId: id, SBuffer: encodeTag(tag, q), Status: map[string]string{}, SResultDesc: desc}
 	os := codec.NewBuffer()
 	if err := rsp.WriteTo(os); err != nil {
 		p.rec.fail("peer: cannot encode a response: %v", err)
